@@ -832,6 +832,11 @@ def t_subtler_type():
                 return False  # the members of UnionTypes are not types of the universe (typing.Union itself is handled by the normaliser)
             raise OutOfSubset("membership in UnionTypes")
 
+        def py_iter(self, I):
+            # `(GenericAlias, *UnionTypes)`: the members of the tuple are only ever used as the class argument of isinstance,
+            # where the token stands for "one of the union type classes"
+            return [self]
+
     UNIONTYPES = UnionTypesTok()
 
     class W(MroWorld):
